@@ -15,12 +15,12 @@ CHECKS = {
                 note="Reduced claim: the decoders, the flat page loop and the decoder call sites (not PLAIN/np.frombuffer value bytes, codecs, converted-type conversion, numpy fast paths of v2 pages). Trusts clang's IR, the stub list in the evidence file, and the specification functions written from Encodings.md."),
     "C11": dict(engine=E1, cat="model_checking", design="DESIGN.md §4 C11",
                 technique="bounded symbolic execution of the generated C's LLVM IR + z3 (bit-vectors) vs specification; replay on the compiled module",
-                text="Every primitive kernel of cencoding x every shape of a lattice (widths 0..32 / 0..64, counts, capacities 0..count+1, item sizes) is executed over symbolic payload and compared with a specification function by z3; encoder/decoder round trips included; full 64-bit range for varint/zigzag/width_from_max_int. Translator validated against the compiled module on the repo's test vectors and seeded vectors.",
+                text="Every primitive kernel of cencoding x every shape of a lattice (widths 0..32 / 0..64, counts, capacities 0..count+1, item sizes) is executed over symbolic payload and compared with a specification function by z3; encoder/decoder round trips included; full 64-bit range for varint/zigzag/width_from_max_int. Translator validated against the compiled module on the repo's test vectors and seeded vectors. The BYTE_ARRAY codec of speedups.pyx (pack/unpack_byte_array) is lifted from the .pyx each run (E3, drift-guarded against speedups.c) and compared with the PLAIN BYTE_ARRAY specification over symbolic item lengths, bytes and padding.",
                 note="Bounded by the shape lattice printed in the evidence; payload is unconstrained. Trusts clang-14 IR generation, the Python-object stubs listed in the evidence, and the spec functions."),
     "C12": dict(engine=E1, cat="model_checking", design="DESIGN.md §4 C12",
                 technique="bounded symbolic execution of the LLVM IR with in-bounds / shift-width / divisor obligations decided by z3; witnesses confirmed under ASan+UBSan",
                 text="The same executions as C11/C03 with only the safety obligations asserted: every load/store/memcpy inside its region, shift amount < width, divisor != 0, for all payloads of each well-formed shape. The sanitizer build is used only to confirm solver witnesses.",
-                note="Leaf kernels and NumpyIO methods; Cython runtime, numpy and speedups' CPython-API loops are outside. Pointer formation without dereference is not asserted."),
+                note="Leaf kernels and NumpyIO methods, plus the pointer arithmetic of speedups.pack/unpack_byte_array on the lifted .pyx (every dereference carries the bounds obligation); Cython runtime, numpy and the CPython object API are outside. Pointer formation without dereference is not asserted."),
 }
 E2 = "E2-pyshim"
 CHECKS["C05"] = dict(engine=E2, cat="other", design="DESIGN.md §4 C05",
@@ -42,7 +42,7 @@ CHECKS["C16"] = dict(engine=E2, cat="other", design="DESIGN.md §4 C16",
 E3 = "E3-pyxlift"
 CHECKS["C15"] = dict(engine=E3, cat="other", design="DESIGN.md §4 C15",
     technique="CrossHair (z3) symbolic execution of _assemble_objects lifted from cencoding.pyx (drift-guarded against the generated C) vs a Dremel reference; counterexamples replayed on the compiled function",
-    text="Record assembly for 3-level LIST columns: the real _assemble_objects (lifted from the .pyx each run) is executed page by page over all valid definition/repetition level streams of the bounded length and every page split position, for optional/required list x optional/required element, and must equal standard record assembly.",
+    text="Record assembly for 3-level LIST columns: the real _assemble_objects (lifted from the .pyx each run) is executed page by page over all valid definition/repetition level streams of the bounded length and every page split position, for optional/required list x optional/required element, and must equal standard record assembly. The same oracle is applied through the real core.read_col for v1 pages (PLAIN, and a dictionary page followed by dictionary-encoded / PLAIN data pages) and through the real core.read_data_page_v2 for up to three DATA_PAGE_V2 pages (row offset carried across pages, level reads, schema-derived nullability).",
     note="Bounded: streams of 3 (thorough 4) level entries, 1-2 page splits. Trusts the mechanical lift (types stripped, integer wrap, index obligations) - tied to the compiled code by the quoted-line drift guard and by replaying every counterexample on the compiled function. The real core.read_col + SchemaHelper drive the assembler for LIST columns (null flag, max levels from the schema path). MAP zipping and dictionary dereference (numpy) outside.")
 CHECKS["C10"] = dict(engine="E3-pyxlift+E1-llsym", cat="other", design="DESIGN.md §4 C10",
     technique="CrossHair (z3) over to_bytes/write_thrift/write_list lifted from cencoding.pyx with bounds obligations (lengths symbolic) + LLVM-IR/z3 check of the varint/zigzag kernels; witnesses confirmed under ASan",
@@ -84,8 +84,11 @@ CHECKS["C09"] = dict(engine=E2, cat="other", design="DESIGN.md §4 C09",
     technique="CrossHair (z3): one inductive step of the real remove_row_groups / _sort_part_names / write_row_groups from a symbolic dataset state satisfying the invariant",
     text="From any dataset state within the bound that satisfies the invariant (referenced files == files on disk, no duplicates, num_rows = sum) one removal, renumbering or append of the real code re-establishes the invariant and yields the model's row-group list.",
     note="Lowest-priority, reduced claim: no histories (one step from an arbitrary valid state), <=3 row groups. append='overwrite' is one step of the real writer.overwrite on a shim dataset (partition values <= 3, which partitions are replaced and which stay). Renumbering with part numbers shared between directories is a recorded known finding.")
+CHECKS["C17"] = dict(engine=E2, cat="other", design="DESIGN.md §4 C17",
+    technique="CrossHair (z3) symbolic execution of the real ParquetFile._dtypes / pre_allocate / _get_index on a handle built from real schema and row-group thrift objects with symbolic row counts, NULL counts and statistics states; counterexamples replayed on spec-built files through ParquetFile.dtypes / to_pandas",
+    text="Reduced claim - the prediction logic: for an integer column of any two row groups (rows, NULLs per row group, chunk statistics absent / without null_count / truthful all symbolic; after a float column and after a MAP column) the dtype predicted from metadata alone can hold every value a read then produces (nullable extension type or float64 whenever a row group that is read holds a NULL), the column list and order are the schema's, and the columns / index / categories handed to the allocator are exactly the predicted ones for every column selection.",
+    note="What pandas allocates for a given dtype (dataframe.empty, block manager, time zones, extension arrays) is not encodable and stays outside: prediction is compared with the read only through replay on real files. Row counts are C06.")
 NA = {
-    "C17": "dtype/categorical/index prediction vs what pandas allocates: no symbolic model of pandas' allocation is within reach and prediction and allocation share one function; row counts are decided under C06",
     "C20": "quantifies over CPython thread schedules of code running in pandas/numpy/C extensions; CrossHair executes one thread and no engine here gives a semantics for interleaved bytecode; a hand-written interleaving model would not be the real code",
 }
 PENDING = {}   # id -> reason while a check is not built yet
